@@ -331,3 +331,18 @@ func init() {
 		},
 	})
 }
+
+func init() {
+	register(&Property{
+		ID: "C17",
+		Explanation: "Decides structural necessary conditions of 'generation completes and the generated Go code builds' on the template trees (parsed with text/template/parse, never executed, so option branches no shipped grammar instantiates are covered): TMPLGUARD: in parser.go/parser_tables.go/stream.go templates, node-type identifiers (NodeType/NodeFlags via nodeTypeRef…, node_id) appear only under guards implying .Parser.Types. TMPL(threshold): a numeric threshold tested by two Go templates is tested identically (helper emitted iff called). " +
+			"TMPLNAMES: every {{template}} resolves and every pipeline function is registered. ERRGUARD: a return taken because error E is non-nil returns E (gen.Generate and the compiler packages). Not decided: the option x feature space as a whole; Go type-correctness of un-instantiated branches.",
+		Rules: []string{"TMPLGUARD", "TMPL(threshold)", "TMPLNAMES", "ERRGUARD"},
+		Run: func(c *Ctx) {
+			ruleTMPLGUARD(c)
+			ruleTMPLTHRESHOLD(c)
+			ruleTMPLNAMES(c)
+			ruleERRGUARD(c, "gen", "compiler", "lalr", "lex", "syntax", "grammar")
+		},
+	})
+}
